@@ -3,6 +3,7 @@
 # The copy lives under a fresh temp dir and is removed afterwards; evidence of the run goes there too.
 set -u
 patch=$1; shift
+case "$patch" in -|/*) ;; *) patch="$(pwd)/$patch";; esac
 tmp=$(mktemp -d /tmp/mutest.XXXXXX)
 trap 'rm -rf "$tmp"' EXIT
 rsync -a --exclude .git /repo/ "$tmp/repo/"
